@@ -9,6 +9,7 @@ from oracle import models as M
 
 ID = "C11"
 TITLE = "genotype_alleles_as_index / index_as_genotype_alleles / increment_genotype realise the VCF genotype order bijectively; _comb exact (and int64-safe) inside and beyond the lookup table"
+TECHNIQUE = 'symbolic execution of the combinatorial number system code with z3 (symbolic n for k<=2; table lookups concretised by solver enumeration), int64 side conditions as solver queries'
 ENCODED = ["mchap.jitutils.genotype_alleles_as_index", "mchap.jitutils.index_as_genotype_alleles", "mchap.jitutils.increment_genotype",
            "mchap.jitutils.comb", "mchap.jitutils._comb", "mchap.jitutils.comb_with_replacement", "mchap.jitutils._comb_with_replacement",
            "mchap.jitutils._greatest_common_denominatior", "mchap.calling.utils.posterior_as_array"]
